@@ -441,6 +441,23 @@ func genC20(tier string, rng *Rng) []Case {
 		out = append(out, copyCase{CopyCase{Base: RouteCase{Secrets: secrets, Retries: retries, Rules: rs, Req: q, Script: script},
 			Variants: copyVariants(rng, copyHosts, retries)}})
 	}
+	// the same URL requested with different methods, one after the other on one server, with copy rules that apply
+	// to some methods only: which requests are copied must not depend on what was requested before
+	for k := 0; k < n/10; k++ {
+		rs := []Rule{
+			{Enabled: true, Path: "/t/*", Dest: "http://c0.test/shadow/$1", Type: 2, Methods: [][]string{{"POST", "PUT"}, {"GET"}, {"POST"}}[rng.Intn(3)]},
+			{Enabled: true, Path: "/t/*", Dest: "http://d0.test/real/$1", Type: 1},
+		}
+		ops := []Op{{Kind: "script", Script: scriptFor(rs)}}
+		for m := 3 + rng.Intn(4); m > 0; m-- {
+			q := Req{Method: rng.Pick([]string{"GET", "POST", "PUT", "GET"}), Host: "h1", Target: rng.Pick([]string{"/t/item", "/t/item", "/t/other"})}
+			if q.Method != "GET" {
+				q.Body = "k=v"
+			}
+			ops = append(ops, Op{Kind: "req", Req: q})
+		}
+		out = append(out, cacheCase{CacheCase{Retries: 0, Rules: rs, Caches: nil, Base: cacheBase, Ops: ops}})
+	}
 	return out
 }
 
